@@ -23,7 +23,7 @@ type stsWitnessDialer func(addr string) (net.Conn, error)
 
 func (f stsWitnessDialer) Dial(network, addr string) (net.Conn, error) { return f(addr) }
 
-func TestProposedC10_UpgradeSurvivesPeerClose(t *testing.T) {
+func TestC10_UpgradeSurvivesPeerClose(t *testing.T) {
 	for i := 0; i < 50; i++ {
 		var mu sync.Mutex
 		var dials []string
